@@ -305,6 +305,8 @@ def shapes(f, rng, cap=16):
             keep = [l[0], l[-1]] + rng.sample(l[1:-1], cap - 2)
             return keep
         return l
+    if k == 'U' and id(f) in K.BOOL:
+        return [0, 1]                       # every boolean / flag field both ways
     if k in ('U', 'Const', 'Fix'):
         return [gen_val(f, rng)]
     if k == 'Rest':
@@ -587,6 +589,7 @@ class Run(object):
         self.found = False
         self.tie_broken = None
         self.enc_lits, self.dec_lits, self.noenc_lits = [], [], []
+        self.rh2_lits = []
         self.enc_meta, self.dec_meta, self.noenc_meta = [], [], []
 
     def viol(self, key, what, rep):
@@ -749,23 +752,37 @@ def legacy_oracle(run, rng, n):
     from tlslite import messages as M
     from tlslite.utils.codec import Parser
     ctx = run.ctx
-    for _ in range(n):
-        pad = rng.choice([0, 0, 1, 7, 255])
-        esc = rng.random() < 0.2
-        short = not (pad or esc)
-        ln = rng.choice([0, 1, 255, 256, 0x3fff, 0x7fff if short else 0x3fff, rng.randrange(0x4000)])
-        h = M.RecordHeader2().create(ln, pad, esc)
-        wb = bytes(h.write())
-        h2 = M.RecordHeader2().parse(Parser(bytearray(wb)))
-        ctx.count('impl-roundtrip', 1, [('RecordHeader2', short, ln > 255)])
-        if (h2.length, h2.padding, bool(h2.securityEscape)) != (ln, pad, esc) or bytes(h2.write()) != wb:
-            run.viol('roundtrip:RecordHeader2', 'RecordHeader2 parse(write(v)) != v', {'length': ln, 'padding': pad, 'esc': esc})
-    for ln, pad in ((0x8000, 0), (0x4000, 1), (0x10000, 0)):
-        try:
-            M.RecordHeader2().create(ln, pad).write()
-            run.viol('truncates:RecordHeader2', 'RecordHeader2.write() accepts a length that does not fit', {'length': ln, 'padding': pad})
-        except ValueError:
-            pass
+    # RecordHeader2 through its API view: every flag combination (padding x securityEscape) at every length
+    # boundary of both header forms.  Oracle written from the format: the 2-byte form has 15 length bits, the
+    # 3-byte form (padding or escape) 14; what does not fit must be refused, what fits must come back unchanged.
+    lengths = [-1, 0, 1, 255, 256, 0x3fff, 0x4000, 0x4123, 0x7fff, 0x8000, 0xffff, 0x10000, rng.randrange(0x4000),
+               rng.randrange(0x4000, 0x8000)]
+    for ln in lengths:
+        for pad in (0, 1, 255, 256):
+            for esc in (False, True):
+                short = not (pad or esc)
+                fits = ln >= 0 and (ln < 0x8000 if short else (ln < 0x4000 and 0 <= pad < 256))
+                try:
+                    wb = bytes(M.RecordHeader2().create(ln, pad, esc).write())
+                except Exception:  # noqa
+                    wb = None
+                ctx.count('impl-roundtrip', 1, [('RecordHeader2', short, esc, fits, ln >= 0x4000, ln >= 0x8000)])
+                run.rh2_lits.append('(%s, %s, %s, %s)' % (zlit(ln), zlit(pad), vlib.boollit(esc), vlib.optlit(wb, blit)))
+                rep = {'class': 'RecordHeader2', 'length': ln, 'padding': pad, 'securityEscape': esc,
+                       'written': None if wb is None else hexs(wb),
+                       'how': 'tlslite.messages.RecordHeader2().create(length, padding, securityEscape).write(), parse back'}
+                if wb is None:
+                    if fits:
+                        run.viol('write-raises:RecordHeader2', 'RecordHeader2.write() refuses a header that fits', rep)
+                    continue
+                h2 = M.RecordHeader2().parse(Parser(bytearray(wb)))
+                back = (h2.length, h2.padding, bool(h2.securityEscape))
+                if not fits or back != (ln, pad, esc) or bytes(h2.write()) != wb:
+                    run.viol('truncates:RecordHeader2' if not fits else 'roundtrip:RecordHeader2',
+                             'RecordHeader2(length=%#x, padding=%d, securityEscape=%s).write() = %s parses back as %r: %s'
+                             % (ln, pad, esc, hexs(wb), back,
+                                'a length that does not fit the header form is wrapped silently' if not fits
+                                else 'parse(write(v)) != v'), rep)
     for _ in range(n):
         suites = [rng.randrange(2 ** 24) for _ in range(rng.randrange(0, 4))]
         sid = gen_bytes(rng, rng.choice([0, 16, 32]))
@@ -913,7 +930,8 @@ def run(ctx):
                 ('C15p', 'list Z * list pop * list (list Z) * Z * Z', 'chk_pops', pl, 'parser primitive', None),
                 ('C15e', 'fmt * val * list Z', 'chk_enc', run_.enc_lits, 'encode', run_.enc_meta),
                 ('C15n', 'fmt * val', 'chk_noenc', run_.noenc_lits, 'overflow', run_.noenc_meta),
-                ('C15d', 'fmt * bool * list Z * option (val * Z)', 'chk_dec', run_.dec_lits, 'decode', run_.dec_meta)]
+                ('C15d', 'fmt * bool * list Z * option (val * Z)', 'chk_dec', run_.dec_lits, 'decode', run_.dec_meta),
+                ('C15r', 'Z * Z * bool * option (list Z)', 'chk_rh2', run_.rh2_lits, 'RecordHeader2 API view', None)]
         from concurrent.futures import ThreadPoolExecutor
         jobs = [j for j in jobs if j[3]]
         with ThreadPoolExecutor(len(jobs)) as ex:       # the five case sets are evaluated concurrently
